@@ -25,6 +25,10 @@ pub struct Item {
     pub fmt: Fmt,
     /// calls random()/unique-id(): runs as a predecessor but is not compared
     pub nondet: bool,
+    /// (process histories) compile through `FsLoader::for_cwd()` after a `chdir` into a real directory
+    /// that holds the files: the working directory is process state that changes between compilations
+    #[serde(default)]
+    pub via_cwd: bool,
 }
 
 impl Item {
@@ -36,11 +40,12 @@ impl Item {
             cwd: String::new(),
             fmt: Fmt { compressed: false, precision: 10 },
             nondet: input.contains("random(") || input.contains("unique-id") || input.contains("unique_id"),
+            via_cwd: false,
         }
     }
     pub fn digest(&self) -> u64 {
         let mut d = Digest::new();
-        d.str(&self.input).str(&self.cwd).u64(u64::from(self.fmt.compressed)).u64(self.fmt.precision as u64);
+        d.str(&self.input).str(&self.cwd).u64(u64::from(self.fmt.compressed)).u64(self.fmt.precision as u64).u64(u64::from(self.via_cwd));
         for (k, v) in &self.files {
             d.str(k).str(v);
         }
@@ -432,6 +437,7 @@ pub fn corpus() -> &'static [Item] {
                 cwd: j["cwd"].as_str().unwrap_or("").to_string(),
                 fmt: Fmt { compressed: false, precision: j["precision"].as_u64().unwrap_or(10) as usize },
                 nondet: nd,
+                via_cwd: false,
             });
         }
         out
